@@ -289,7 +289,7 @@ def u_reject(what):
         X = ML.fresh_mat(I, 'X', (I.fresh('n', IntS), I.fresh('m', IntS))); Y = ML.fresh_mat(I, 'y', (I.A(X).shape[0], 1))
         I.call_func(I.find_method(cls, 'fit'), [me, X, Y], {})
         I.ob('reject[C10]:unknown-' + what + '-is-rejected', BoolVal(False), kind='post')
-    return Unit(f'Ridge2FoldCV[reject-{what}]', body, functions=[R2 + '.fit'], on_raise=lambda I, st, r: r.kind == 'ValueError')
+    return Unit(f'Ridge2FoldCV[reject-{what}]', body, functions=[R2 + '.fit'], on_raise=lambda I, st, r: r.kind == 'ValueError', reject_name='reject[C10]:unknown-' + what + '-is-rejected')
 
 def u_lemma():
     def body(I):
